@@ -10,3 +10,5 @@ import Props.C06
 #print axioms Webauthn.Props.C06.bitflip_reg_tpm
 #print axioms Webauthn.Props.C06.bitflip_reg_apple
 #print axioms Webauthn.Props.C06.bitflip_reg_u2f
+#print axioms Webauthn.Props.C06.bitflip_reg_safetynet
+#print axioms Webauthn.Props.C06.b64Std_injective
